@@ -68,6 +68,9 @@ class Frame:
         g = object.__getattribute__(self, '_ghost')
         if name in g:
             return g[name]
+        vg = E.cur().ghost
+        if name in vg:
+            return vg[name]
         v = object.__getattribute__(self, '_env').lookup(name)
         if v is _MISSING:
             raise CheckerError(f'invariant refers to unknown local {name!r}')
@@ -688,6 +691,11 @@ class Interp:
             else:
                 x = self.eval(v.value, env)
                 parts.append(self.to_str(x))
+        if any(isinstance(p, (self.em.IntStr, self.em.StrCat)) for p in parts):
+            flat = []
+            for p in parts:
+                flat.extend(p.parts if isinstance(p, self.em.StrCat) else [p])
+            return self.em.StrCat([p for p in flat if not (isinstance(p, str) and p == '')])
         out = ''
         for p in parts:
             if is_sym(out) or is_sym(p):
